@@ -2,7 +2,7 @@
 """seed_meta.py: (re)writes /verif/seeded/<id>/meta.json from meta.agent.json and verify.log."""
 import glob, json, os, re
 for d in sorted(glob.glob('/verif/seeded/C*')):
-    pid = os.path.basename(d)
+    pid = os.path.basename(d).split('-')[0]
     log = open(d + '/verify.log', errors='replace').read() if os.path.exists(d + '/verify.log') else ''
     agent = {}
     try: agent = json.load(open(d + '/meta.agent.json'))
